@@ -17,6 +17,10 @@ pub struct ConnSpec {
     /// healthy connections must receive exactly their solo reply stream
     pub healthy: bool,
     pub name: String,
+    /// scripted timing: the connection is offered only once this many timeout answers have passed
+    pub after_ticks: usize,
+    /// scripted timing: the peer closes only once this many timeout answers have passed
+    pub close_after_ticks: usize,
 }
 
 #[derive(Clone, Debug, PartialEq)]
@@ -40,6 +44,8 @@ pub struct ListenSpec {
     /// extra ticks offered after the point where the loop should have returned
     pub extra_ticks: usize,
     pub prop: String,
+    /// scripted timing: the flag may be set once this many timeout answers have passed (None: never set)
+    pub flag_after_ticks: Option<usize>,
 }
 
 #[derive(Default, Debug)]
@@ -63,6 +69,7 @@ pub struct ListenWorld {
     flag_set: bool,
     ticks_since_flag: usize,
     ticks_since_progress: usize,
+    ticks_total: usize,
     clock_last_accept: u64,
     /// accepted-but-unfinished connections at the most recent tick
     unfinished_at_last_tick: Vec<usize>,
@@ -139,7 +146,7 @@ impl World for ListenWorld {
     fn env_enabled(&self, st: &St) -> Vec<EnvAct> {
         let mut v = vec![];
         let returned = self.obs.lock().unwrap().result.is_some();
-        if self.connected < self.spec.conns.len() && !returned {
+        if self.connected < self.spec.conns.len() && !returned && self.ticks_total >= self.spec.conns[self.connected].after_ticks {
             v.push(EnvAct { label: format!("connect{}", self.connected), id: 100 + self.connected });
         }
         for c in 0..self.connected {
@@ -148,16 +155,19 @@ impl World for ListenWorld {
             }
         }
         for c in 0..self.connected {
-            if self.delivered[c] == self.spec.conns[c].chunks.len() && self.spec.conns[c].closes && !self.closed[c] {
+            if self.delivered[c] == self.spec.conns[c].chunks.len() && self.spec.conns[c].closes && !self.closed[c] && self.ticks_total >= self.spec.conns[c].close_after_ticks {
                 v.push(EnvAct { label: format!("close{}", c), id: 300 + c });
             }
         }
-        if self.spec.flag && !self.flag_set {
+        if self.spec.flag && !self.flag_set && self.spec.flag_after_ticks.map(|t| self.ticks_total >= t).unwrap_or(false) {
             v.push(EnvAct { label: "setflag".into(), id: 400 });
         }
         if let Some((_, t)) = self.listen_thread(st) {
             if let Some(Op::Accept(timeout)) = &t.pending {
-                if *timeout > 0 && self.backlog.is_empty() && !t.exited && self.ticks_since_progress < self.ticks_needed() + self.spec.extra_ticks {
+                let scripted_pending = (self.connected < self.spec.conns.len() && !returned && self.ticks_total < self.spec.conns[self.connected].after_ticks)
+                    || (0..self.connected).any(|c| self.spec.conns[c].closes && !self.closed[c] && self.ticks_total < self.spec.conns[c].close_after_ticks)
+                    || (self.spec.flag && !self.flag_set && self.spec.flag_after_ticks.map(|t| self.ticks_total < t).unwrap_or(false));
+                if *timeout > 0 && self.backlog.is_empty() && !t.exited && (scripted_pending || self.ticks_since_progress < self.ticks_needed() + self.spec.extra_ticks) {
                     v.push(EnvAct { label: format!("tick{}", timeout), id: 500 });
                 }
             }
@@ -203,6 +213,7 @@ impl World for ListenWorld {
                 st.clock_ms += timeout;
                 st.accept_answer = Some(AcceptAnswer::Timeout);
                 self.ticks_since_progress += 1;
+                self.ticks_total += 1;
                 if self.flag_set {
                     self.ticks_since_flag += 1;
                 }
@@ -339,7 +350,7 @@ impl World for ListenWorld {
     }
     fn abstract_state(&self, st: &St) -> String {
         let th: Vec<String> = st.threads.iter().map(|t| format!("{}{}", t.pending.as_ref().map(|o| o.label()).unwrap_or_default(), t.exited)).collect();
-        format!("{:?}|{}|{:?}|{:?}|{:?}|{}|{}", th, self.connected, self.delivered, self.closed, self.backlog, self.flag_set, st.clock_ms)
+        format!("{:?}|{}|{:?}|{:?}|{:?}|{}|{}|{}|{}|{}", th, self.connected, self.delivered, self.closed, self.backlog, self.flag_set, st.clock_ms, self.clock_last_accept, self.ticks_since_flag, self.ticks_since_progress)
     }
     fn outcome(&self, st: &St) -> String {
         let o = self.obs.lock().unwrap();
@@ -393,6 +404,7 @@ pub fn build_listen(spec: ListenSpec) -> impl Fn(&Sched) -> Scenario {
             flag_set: false,
             ticks_since_flag: 0,
             ticks_since_progress: 0,
+            ticks_total: 0,
             clock_last_accept: 0,
             unfinished_at_last_tick: vec![],
             last_event_was_tick: false,
